@@ -55,9 +55,9 @@ func c19Enc(vk int) (bool, bool) {
 	return ej == nil, ex == nil
 }
 
-var c19Helpers = []string{"text", "html", "json", "jsonbytes", "jsonp", "xml", "blob", "stream", "nocontent", "redirect", "httperror"}
+var c19Helpers = []string{"text", "html", "json", "jsonbytes", "jsonp", "xml", "blob", "stream", "nocontent", "redirect", "httperror", "streamerr", "xmlindent"}
 var c19Renderers = []string{"text", "plain", "textbytes", "html", "htmlbytes", "blob", "json", "jsonindented", "jsonp", "xml", "xmlpretty"}
-var c19Statuses = []int{200, 201, 202, 400, 404, 500, 0}
+var c19Statuses = []int{200, 201, 202, 400, 404, 500, 0, 302, 307}
 var c19Accepts = []string{"", "application/json", "text/xml, application/json", "text/plain, application/json", "application/xml", "text/xml", "text/html, text/plain",
 	"image/png", "image/png, text/plain;q=0.5", "*/*", "application/json;q=0.9, text/plain", " text/plain , application/xml", "text/html", ",,application/xml", "application/xml, text/html"}
 
@@ -169,6 +169,10 @@ func c19Exec(c Sx) (out Sx) {
 					rd = iotest.OneByteReader(struct{ io.Reader }{bytes.NewReader([]byte(str))})
 				}
 				ctx.Stream(status, "application/x-stream", rd)
+			case "streamerr": // the reader fails after delivering its data: the failure goes to the error list
+				ctx.Stream(status, "application/x-stream", io.MultiReader(bytes.NewReader([]byte(str)), iotest.ErrReader(io.ErrUnexpectedEOF)))
+			case "xmlindent":
+				ctx.XML(status, v, "  ")
 			case "nocontent":
 				ctx.NoContent()
 			case "redirect":
@@ -190,11 +194,11 @@ func c19Exec(c Sx) (out Sx) {
 		ct := w.snap.Get("Content-Type")
 		var body Sx
 		switch helper {
-		case "json", "jsonp", "xml":
+		case "json", "jsonp", "xml", "xmlindent":
 			if nerr > 0 {
 				body = L(A("enc-error"))
 			} else {
-				body = c19Decoded(helper, v, w.body)
+				body = c19Decoded(strings.TrimSuffix(helper, "indent"), v, w.body)
 			}
 		default:
 			body = SB(w.body)
